@@ -126,6 +126,8 @@ class Ctx:
         if isinstance(goal, Forall):
             cs, seeds, body = goal.skolemized(self)
             hyps = list(self.facts)
+            if goal.without:
+                hyps = [h for h in hyps if not any(_mentions(h, w) for w in goal.without)]
             for n_, t in enumerate(seeds):
                 # keep the seed term alive in the e-graph: g(t) = c with g, c fresh (conservative)
                 g = z3.Function("seed!%s" % t.sort().name(), t.sort(), Int)
